@@ -56,6 +56,20 @@ theorem keygen_independent (addr user p1 p2 : Str) (r : Reply) :
     keygen addr user p1 r = keygen addr user p2 r :=
   keygen_pass_independent addr user p1 p2 r
 
+/-- `getAPIKey` when the keygen request fails AFTER the `<key>` element arrived (connection lost while
+the rest of the body is read): log entries and returned error are the same for all keys. -/
+theorem keygen_truncated_independent (addr user pass pre post m : Str) {k1 k2 : Str} (h1 : NoNl k1) (h2 : NoNl k2) :
+    keygen addr user pass (.trunc (keyBody pre k1 post) m) = keygen addr user pass (.trunc (keyBody pre k2 post) m) :=
+  keygen_log_key_independent_trunc addr user pass pre post m h1 h2
+
+/-- … and for a status other than 200 whose body holds a `<key>` element the `.login` entries are the
+same (the returned error quotes the rejected body; no key was obtained in that case). -/
+theorem keygen_status_log_independent (addr user pass pre post : Str) (c : Nat) {k1 k2 : Str}
+    (h1 : NoNl k1) (h2 : NoNl k2) :
+    (keygen addr user pass (.status c (keyBody pre k1 post))).1 =
+      (keygen addr user pass (.status c (keyBody pre k2 post))).1 :=
+  keygen_log_key_independent_status addr user pass pre post c h1 h2
+
 /-- `httpPrefixGetLog`: both log entries, for every reply. -/
 theorem prefix_get_log_independent (addr uri : Str) {k1 k2 : Str} (h1 : Safe k1) (h2 : Safe k2) (r : Reply) :
     (prefixGet (urlPrefix addr k1) uri r).1 = (prefixGet (urlPrefix addr k2) uri r).1 :=
@@ -165,6 +179,15 @@ theorem sinks_independent_partial (addr user p1 p2 name ip pre post : Str) {k1 k
         | terr m => rfl
         | status c b => rfl
         | fail b m => rfl
+        | trunc b m => rfl
+
+/-- A transport error of the HA status request (the request right after a successful keygen) reveals
+nothing: `checkHA` drops the error. -/
+theorem ha_check_transport_error_independent (addr user p1 p2 name ip pre post m : Str) {k1 k2 : Str}
+    (h1 : Safe k1) (h2 : Safe k2) (reqs : List Req) (rest : List Reply) :
+    allSinks (panosRun addr user p1 name ip (.ok (keyBody pre k1 post)) k1 reqs (.terr m :: rest)) =
+      allSinks (panosRun addr user p2 name ip (.ok (keyBody pre k2 post)) k2 reqs (.terr m :: rest)) :=
+  sinks_independent_partial addr user p1 p2 name ip pre post h1 h2 reqs (.terr m :: rest) rfl
 
 /-- A run whose login fails (any reply that is not a parsed key): no hypothesis on the path is needed,
 and the key argument is irrelevant. -/
@@ -180,6 +203,7 @@ theorem sinks_independent_login_failure (addr user p1 p2 name ip k1 k2 : Str) (k
   | terr m => rfl
   | status c b => rfl
   | fail b m => rfl
+  | trunc b m => rfl
 
 /-- All sinks of all five device types (the statement named in the design): PAN-OS outside the
 F-C17 path, NSX and the SSH devices unconditionally. -/
@@ -211,7 +235,8 @@ example : ∀ c ∈ "LUFRPT=".toList, c ≠ '"' ∧ c ≠ '\\' := by decide
 
 def obligations : List Lean.Name := [
   ``mask_uri_independent, ``mask_pass_independent, ``mask_api_uri_independent, ``mask_body_independent,
-  ``mask_error_independent, ``keygen_independent, ``prefix_get_log_independent,
+  ``mask_error_independent, ``keygen_independent, ``keygen_truncated_independent,
+  ``keygen_status_log_independent, ``ha_check_transport_error_independent, ``prefix_get_log_independent,
   ``prefix_get_error_independent_partial, ``transport_error_reveals_key,
   ``mask_api_amp_counterexample, ``mask_body_newline_counterexample,
   ``nsx_login_log_independent, ``nsx_sinks_independent,
